@@ -199,7 +199,7 @@ def run_gslb(ctx):
     """Cluster-level decision (Gslb.tla): TLC enumerates configuration x request with the allowed
     outcome sets; cmd/balancer gslb-run replays each on a real BalanceGslb (WRR, WLC, sticky)."""
     q = ctx.tier == "quick"
-    d = {"K": 3, "MAXRETRY": 1, "MAXRT": 3, "MAXRES": 3} if q else {"K": 4, "MAXRETRY": 2, "MAXRT": 4, "MAXRES": 4}
+    d = {"K": 3, "MAXRETRY": 1, "MAXRT": 3, "MAXRES": 3} if q else {"K": 3, "MAXRETRY": 2, "MAXRT": 4, "MAXRES": 5}
     dm = {"K": 3, "MAXRETRY": 1, "MAXRT": 3, "MAXRES": 3} if q else {"K": 3, "MAXRETRY": 2, "MAXRT": 4, "MAXRES": 4}
     ctx.cov["constants"]["MC_Gslb"] = dm
     ctx.tlc_must_pass("Balancer", "Gslb", "MC_Gslb.cfg", defines=dm, timeout=2400)
